@@ -116,6 +116,23 @@ def make_program(kind, seed, extra=()):
         g = GenDyn(seed, p_uncached=0.3)
         defs = g.program()
     defs = copy.deepcopy(defs)
+    if kind == "dyn":
+        # the children of an instance and the nested instances see the parameters of the
+        # enclosing ItemSpaces (exporter.py:406-432, _mx_copy_params / _mx_assign_params):
+        # make a share of their formulas read them
+        nf = [0]
+        for path, cs in defs["cells"]:
+            if path[:1] == ["P"] and len(path) == 2:
+                for cn, crec in cs.items():
+                    if rng.random() < 0.6:
+                        f = copy.deepcopy(defs["flib"][crec["f"]])
+                        names = [["p"]] + ([["q"]] if tuple(path) in {tuple(q) for q, _ in defs["pf"]} else [])
+                        for nm in names:
+                            f["ops"].insert(rng.randrange(1, len(f["ops"]) + 1), ["read", nm])
+                        nf[0] += 1
+                        fid = "X%d" % nf[0]
+                        defs["flib"][fid] = f
+                        crec["f"] = fid
     # --- restriction to the export subset (see ASSUMPTIONS in eng_export.py) ---
     for f in defs["flib"].values():
         if "pfrefs" not in extra:
